@@ -22,7 +22,7 @@ def hash_core(t):
     return None
 
 
-@rule("R08.1", props=["C08"], floor=4, title="filters store and compare the same masked mix of the local signature's edge hash; mask, bit width and hash_bits denote one b")
+@rule("R08.1", props=["C08", "C11"], floor=4, title="filters store and compare the same masked mix of the local signature's edge hash; mask, bit width and hash_bits denote one b")
 def r08_1(ctx, rr):
     F = ctx.F()
     builders = F.find(r"^func::vbuilder::VBuilder::<W, .*, S, E>::try_build_filter$")
@@ -129,3 +129,92 @@ def r08_2(ctx, rr):
     t = Termizer(F, lb).term(lb.body)
     rr.instances += 1
     rr.check(t[0] == "call" and t[1] == "VFunc::len", "VFilter::len", "VFilter::len must be the number of keys of the underlying function", lb.span)
+
+
+def result_term(F, b):
+    """Symbolic value of a function body's tail expression (locals expanded)."""
+    tail = b.body
+    while tail.get("k") == "Block" and "expr" in tail:
+        tail = tail["expr"]
+    got = []
+
+    def on_node(W, n, K):
+        if n is tail:
+            got.append(W.expand(W.T.term(n)))
+    Walker(F, b, on_node=on_node).run()
+    if not got:
+        return Termizer(F, b).term(b.body)
+    return got[-1]
+
+
+def edge_form(t):
+    """shard(sig) * num_vertices() + local_edge(local_sig(sig))[i]  ->  edge(sig)[i]  (the identity R16.1
+    establishes for every ShardEdge implementation), so that either spelling of a cell address is accepted."""
+    if not isinstance(t, tuple) or not t:
+        return t
+    t = tuple(edge_form(x) if isinstance(x, tuple) else x for x in t)
+    if t[0] == "op" and t[1] == "+":
+        for base, loc in ((t[2], t[3]), (t[3], t[2])):
+            if loc[0] == "index" and loc[1][0] == "call" and loc[1][1] == "local_edge" and base[0] == "op" and base[1] == "*":
+                se = loc[1][2][0]
+                ls = loc[1][2][1]
+                if ls[0] == "call" and ls[1] == "local_sig" and ls[2][0] == se:
+                    sig = ls[2][1]
+                    fs = {base[2], base[3]}
+                    if fs == {("call", "shard", (se, sig)), ("call", "num_vertices", (se,))}:
+                        return ("index", ("call", "edge", (se, sig)), loc[2])
+    return t
+
+
+UNALIGNED_TWINS = {
+    "get_unchecked": "get_unaligned_unchecked", "get_by_sig": "get_by_sig_unaligned", "get": "get_unaligned",
+    "contains_by_sig": "contains_by_sig_unaligned", "contains": "contains_unaligned",
+}
+
+
+@rule("R07.7", props=["C07", "C08", "C16"], floor=6, title="the *_unaligned query methods of functions and filters compute exactly what their aligned twins compute, with the unaligned read in place of the aligned one")
+def r07_7(ctx, rr):
+    """get_by_sig_unaligned / get_unaligned / contains_by_sig_unaligned / contains_unaligned must address the
+    same cells (shard_edge.edge(sig)), combine them the same way and compare with the same mask as
+    get_by_sig / get / contains_by_sig / contains."""
+    F = ctx.F()
+    fns = [b for b in F.fns() if b.file.endswith(("func/vfunc.rs", "dict/vfilter.rs"))]
+    by_name = {}
+    for b in fns:
+        owner = "VFilter" if b.file.endswith("vfilter.rs") else "VFunc"
+        by_name.setdefault((owner, b.name), []).append(b)
+    n = 0
+    for (owner, name), bs in sorted(by_name.items()):
+        twin = UNALIGNED_TWINS.get(name)
+        if twin is None or (owner, twin) not in by_name:
+            continue
+        a, u = bs[0], by_name[(owner, twin)][0]
+        ta = rename_vars(result_term(F, a), param_names(a))
+        tu = rename_vars(result_term(F, u), param_names(u))
+
+        def twinify(t):
+            if not isinstance(t, tuple) or not t:
+                return t
+            if t[0] == "call" and isinstance(t[1], str):
+                parts = t[1].split("::")
+                if parts[-1] in UNALIGNED_TWINS:
+                    # the aligned read is a trait method of the backend, the unaligned one an inherent method of BitFieldVec
+                    t = ("call", UNALIGNED_TWINS[parts[-1]]) + t[2:]
+            return tuple(twinify(x) if isinstance(x, tuple) else x for x in t)
+
+        def bare(t):
+            if not isinstance(t, tuple) or not t:
+                return t
+            if t[0] == "call" and isinstance(t[1], str):
+                t = ("call", t[1].split("::")[-1]) + t[2:]
+            return tuple(bare(x) if isinstance(x, tuple) else x for x in t)
+        want = edge_form(bare(twinify(ta)))
+        got = edge_form(bare(tu))
+        n += 1
+        rr.instances += 1
+        key = "%s::%s~%s" % (owner, name, twin)
+        rr.ob(want == got, key=key, sample={"pair": key, "aligned": tshow(ta)[:160], "unaligned": tshow(tu)[:160]})
+        if want != got:
+            rr.violate(key, "%s::%s must compute what %s::%s computes with the unaligned read in place of the aligned one; aligned: %s; unaligned: %s" % (owner, twin, owner, name, tshow(ta)[:260], tshow(tu)[:260]), u.span)
+    if n < 6:
+        raise AnchorMissing("expected the 4 + 4 aligned/unaligned query pairs of VFunc and VFilter, found %d" % n)
